@@ -12,6 +12,7 @@ mod c06;
 mod maps;
 mod c01;
 mod c04;
+mod c19;
 
 pub use util::*;
 
@@ -32,6 +33,7 @@ fn props() -> Vec<Prop> {
         Prop { id: "C03", run: c01::run_c03, gen: c01::gen },
         Prop { id: "C04", run: c04::run, gen: c04::gen },
         Prop { id: "C07", run: c04::run_c07, gen: c04::gen_c07 },
+        Prop { id: "C19", run: c19::run, gen: c19::gen },
     ]
 }
 
